@@ -368,7 +368,8 @@ def t_has_curve_family(t):
     return t[0] in ('CC', 'CP', 'MC', 'MS') or any(t_has_curve_family(c) for c in t[1])
 
 
-POOL = [0.0, 1.0, -1.0, 2.5, 0.1, -0.5, 1e-5, 123456.789, 1e17, 1.5e300, 5e-324, 0.00015, 12345678.125, -179.99999999, 3.0000000000000004, 1e22, 0.3, 1 / 3.0]
+POOL = [0.0, 1.0, -1.0, 2.5, 0.1, -0.5, 1e-5, 123456.789, 1e17, 0.00015, 12345678.125, -179.99999999, 3.0000000000000004, 1e22, 0.3, 1 / 3.0, 7.0, 0.5, 1e-4, 99999999999999984.0]
+RARE = [1.5e300, 5e-324, -1.7976931348623157e308, 2.2250738585072014e-308]
 
 
 def gen_ord(rng, allow_special):
@@ -379,8 +380,10 @@ def gen_ord(rng, allow_special):
         return bits_of(rng.choice(POOL))
     if r < 0.8:
         return bits_of(round(rng.uniform(-1000, 1000), rng.randint(0, 6)))
-    if r < 0.95:
+    if r < 0.985:
         return bits_of(rng.uniform(-1, 1) * 10 ** rng.randint(-8, 19))
+    if r < 0.995:
+        return bits_of(rng.choice(RARE))
     b = rng.getrandbits(64)
     return b if (b >> 52) & 0x7ff != 0x7ff else bits_of(1.25)
 
@@ -873,6 +876,9 @@ def expected_top_dims(t, c):
     """the writer's documented dropping rule at top level: output dimension 3 keeps Z over M, 2 drops both; old-3D has no Z/ZM tag,
     so an all-EMPTY geometry loses Z (and ZM)"""
     trim, prec, dim, old = c
+    if t[0] == 'GC':        # every member of a collection is tagged (and clipped) on its own
+        ds = [expected_top_dims(ch, c) for ch in t[1]]
+        return any(d[0] for d in ds), any(d[1] for d in ds)
     z, m = t_hasz(t), t_hasm(t)
     if dim == 2: z, m = False, False
     elif dim == 3 and z and m: m = False
